@@ -29,7 +29,7 @@ HEADER = ("From Coq Require Import ZArith List. Import ListNotations.\n"
 
 
 def correspond(run):
-    n = 2000 if run.tier == "quick" else 20000
+    n = 2000 if run.depth == "quick" else 20000
     rc, js, out, err = vlib.harness(["tracker-cases", "--seed", run.seed, "--n", n], timeout=900)
     if rc != 0 or js is None:
         run.oblige("correspondence:tracker-cases", "correspondence", False, (out + err)[-800:])
@@ -93,7 +93,7 @@ def _report(run, js):
 
 
 def direct(run):
-    n = 4000 if run.tier == "quick" else 100000
+    n = 4000 if run.depth == "quick" else 100000
     rc, js, out, err = vlib.harness(["tracker-search", "--seed", run.seed, "--n", n], timeout=900)
     if rc != 0 or js is None:
         run.oblige("direct:tracker-search", "correspondence", False, (out + err)[-800:])
